@@ -66,8 +66,10 @@ type InstCfg struct {
 	// GateLog: the library goroutine that emits a log line with this message blocks there until a release_gate step
 	// (a scheduler gate at any logged step of the library; the first occurrence only)
 	GateLog string `json:"gate_log"`
-	HUs     int64  `json:"h_us"`
-	TTLUs   int64  `json:"ttl_us"`
+	// GateFree: the gated log line sits outside every critical section of the library; the driver keeps going while it is held
+	GateFree bool  `json:"gate_free"`
+	HUs      int64 `json:"h_us"`
+	TTLUs    int64 `json:"ttl_us"`
 }
 
 // Match selects a pending operation (or watch delivery) of an instance.
